@@ -59,6 +59,11 @@ fn reduce_mean_unary(model: &rten::Model) -> usize {
 }
 
 fn oracle(built: &Built) -> Outcome {
+    // same as c01.rs: pattern cases carry a tag as first op_types entry, appended to every signature
+    let tag = match built.op_types.first() {
+        Some(t) if t.starts_with('@') => format!(":{t}"),
+        _ => String::new(),
+    };
     let bytes = built.model.encode();
     let base_model = match vcore::catch(|| Config::Plain.load(&bytes)) {
         Ok(Ok(m)) => m,
@@ -96,13 +101,13 @@ fn oracle(built: &Built) -> Outcome {
                     continue;
                 }
                 return Outcome::Fail {
-                    signature: format!("load-failed:{}:{}", cfg.name(), err_class(&e)),
+                    signature: format!("load-failed:{}:{}{tag}", cfg.name(), err_class(&e)),
                     detail: format!("{} fails to load: {e}", cfg.name()),
                 };
             }
             Err(p) => {
                 return Outcome::Fail {
-                    signature: format!("load-panic:{}:{}", cfg.name(), p.signature()),
+                    signature: format!("load-panic:{}:{}{tag}", cfg.name(), p.signature()),
                     detail: format!("{} load panicked: {} at {}", cfg.name(), p.msg, p.loc()),
                 }
             }
@@ -115,13 +120,13 @@ fn oracle(built: &Built) -> Outcome {
             Ok(Ok(o)) => o,
             Ok(Err(e)) => {
                 return Outcome::Fail {
-                    signature: format!("run-failed:{}:{}", diff.join(","), err_class(&e)),
+                    signature: format!("run-failed:{}:{}{tag}", diff.join(","), err_class(&e)),
                     detail: format!("unoptimised run succeeds but {} run fails: {e}; optimiser changes {:?}", cfg.name(), diff),
                 }
             }
             Err(p) => {
                 return Outcome::Fail {
-                    signature: format!("run-panic:{}:{}", diff.join(","), p.signature()),
+                    signature: format!("run-panic:{}:{}{tag}", diff.join(","), p.signature()),
                     detail: format!("{} run panicked: {} at {}; optimiser changes {:?}", cfg.name(), p.msg, p.loc(), diff),
                 }
             }
@@ -129,7 +134,7 @@ fn oracle(built: &Built) -> Outcome {
         for ((name, b), o) in built.outputs.iter().zip(&base).zip(&outs) {
             if let Err(why) = compare(b, o, TOL) {
                 return Outcome::Fail {
-                    signature: format!("mismatch:{}", diff.join(",")),
+                    signature: format!("mismatch:{}{tag}", diff.join(",")),
                     detail: format!("output {name} differs between opt-off and {}: {why}; optimiser changes {:?}", cfg.name(), diff),
                 };
             }
@@ -182,6 +187,26 @@ fn main() {
             Outcome::Pass { diffs, rm_canon, strict_refused, deviation } => println!("PASS diffs={diffs:?} rm_canon={rm_canon} strict_refused={strict_refused} deviation={deviation:?}"),
             Outcome::Fail { signature, detail } => println!("FAIL {signature}\n  {detail}"),
         }
+        return;
+    }
+    if args.first().map(|s| s.as_str()) == Some("--build-only") {
+        // generator robustness: build (not run) many cases of the mixed strategy; any panic is a generator bug
+        let n: usize = args.get(1).and_then(|s| s.parse().ok()).unwrap_or(100_000);
+        let mut runner = TestRunner::new(PConfig { rng_seed: RngSeed::Fixed(7), ..PConfig::default() });
+        let strat = pattern_case();
+        let mut per = vec![0usize; N_TEMPLATES];
+        let mut bad = 0;
+        for _ in 0..n {
+            let c = strat.new_tree(&mut runner).unwrap().current();
+            per[template_index(&c)] += 1;
+            if let Err(p) = vcore::catch(|| build_pattern(&c).model.encode().len()) {
+                bad += 1;
+                if bad <= 5 {
+                    println!("GENERATOR panic: {} case {}", p.msg, serde_json::to_string(&c).unwrap());
+                }
+            }
+        }
+        println!("built {n} cases, {bad} generator panics; per-template counts {per:?}");
         return;
     }
     let n: usize = args.first().and_then(|s| s.parse().ok()).unwrap_or(300);
